@@ -120,14 +120,15 @@ class Gen:
 
     # ---------- tags ----------
     def tag(self):
-        w = self.p.get("tags", {"html": 5, "svg": 1, "custom": 1, "bound": 4, "unbound": 2, "member": 1,
+        w = self.p.get("tags", {"html": 5, "svg": 1, "custom": 1, "bound": 4, "unbound": 2, "member": 2,
                                 "this": 0, "ns": 0, "Fragment": 0, "_Fragment": 0, "KeepAlive": 1})
         k = self.r.wpick([(a, b) for a, b in w.items() if b > 0])
         self.u("tag:" + k)
         return {
             "html": lambda: self.r.pick(HTML_TAGS), "svg": lambda: self.r.pick(SVG_TAGS),
             "custom": lambda: self.r.pick(CUSTOM_TAGS), "bound": lambda: self.r.pick(BOUND_COMPONENTS),
-            "unbound": lambda: self.r.pick(UNBOUND_COMPONENTS), "member": lambda: self.r.pick(["NS.Item", "obj.Comp", "NS.a.B"]),
+            "unbound": lambda: self.r.pick(UNBOUND_COMPONENTS), "member": lambda: self.r.pick(["NS.Item", "obj.Comp", "NS.a.B", "NS.div", "Card.title", "Form.input", "Table.td", "Icon.circle", "NS.my-el".replace("-", "_"),
+                                                             "obj.select", "NS.a.textarea", "NS.Fragment", "NS.KeepAlive"]),
             "this": lambda: "this.Comp", "ns": lambda: "a:b", "Fragment": lambda: "Fragment",
             "_Fragment": lambda: "_Fragment", "KeepAlive": lambda: "KeepAlive",
         }[k]()
@@ -221,7 +222,7 @@ class Gen:
 
     def child(self, d):
         w = self.p.get("children", {"text": 4, "expr": 4, "ident": 3, "call": 2, "empty": 1, "comment": 1, "spread": 1,
-                                    "element": 4, "fragment": 1, "fn": 1, "objlit": 1})
+                                    "element": 4, "fragment": 1, "fn": 1, "objlit": 1, "wrapped": 1, "member": 1})
         k = self.r.wpick([(a, b) for a, b in w.items() if b > 0])
         if k == "text":
             return self.text()
@@ -246,6 +247,11 @@ class Gen:
             return "{() => (%s)}" % self.expr(d + 1)
         if k == "objlit":
             return "{{ default: () => 1, foo: fn1 }}"
+        if k == "wrapped":
+            inner = self.r.pick([self.ident(), "f()", "fn1(x)", "() => 1", "{ default: () => 1 }", "obj.a", "obj.render().b", "slotsObj", "val"])
+            return "{%s}" % self.r.pick(["(%s)", "((%s))", "(0, %s)", "(%s)"]) % inner
+        if k == "member":
+            return "{%s}" % self.r.pick(["obj.a", "obj.render().b", "NS.slots", "list[0]", "obj?.a", "f().g"])
         return ""
 
     def children(self, d):
